@@ -25,10 +25,14 @@ func gen(seed uint64, tier string) []interface{} {
 	}
 	for i := 0; i < n; i++ {
 		var c trig.Case
-		switch q := r.Intn(10); {
-		case q < 7:
+		switch q := r.Intn(20); {
+		case q < 11:
 			c = trig.GenBoundary(r.Fork(), id, tier)
-		case q < 9:
+		case q < 14:
+			c = trig.GenShadow(r.Fork(), id, tier)
+		case q < 16:
+			c = trig.GenGrow(r.Fork(), id, tier)
+		case q < 18:
 			c = trig.GenRandom(r.Fork(), id, tier)
 		default:
 			c = trig.GenMalformed(r.Fork(), id, tier)
